@@ -63,6 +63,12 @@ E1 = {
     "ticket_3t": ("Ticket", cfg(T_BASE, NT=3, MaxOps=1, SrcLen=2, Sizes={2}, OpKinds={"next", "chunk", "skip"}), T_INV, True),
 }
 
+# liveness under weak fairness of each thread's own steps (no state constraint, no symmetry): name ->
+# (module, constants, temporal properties)
+E1_LIVENESS = {
+    "counter_live": ("Counter", cfg(C_BASE, SrcLen=2, MaxOps=1, Sizes={1, 3}, OpKinds={"next", "chunk", "skip", "len", "foreach"}), ["Live_C09"]),
+}
+
 E1_THOROUGH = {
     "counter_pulls_2x3": ("Counter", cfg(C_BASE, MaxOps=3), C_INV, False),
     "counter_skipq_2x3": ("Counter", cfg(C_BASE, SrcLen=2, MaxOps=3, OpKinds={"next", "chunk", "skip", "len", "hasmore"}), C_INV, False),
